@@ -10,8 +10,9 @@ from pbt.core import Result, pf_tol, silence, pf_outcome
 
 ID = "C16"
 LEVEL = "exploration"
-EXAMPLES = {"quick": 640, "thorough": 9000}
-DEADLINE_S = {"quick": 400, "thorough": 3000}
+EXAMPLES = {"quick": 480, "thorough": 9000}
+SHRINK_S = {"quick": 4, "thorough": 30}     # hand-reduced witnesses of the known shapes are in replays/
+DEADLINE_S = {"quick": 600, "thorough": 3000}
 RULE = ("Hypothesis draws an OPF problem: network recipe (1-3 voltage levels, <=9 buses, lines/trafos/trafo3w/impedances/switches, "
         "loads, sgens, gens, storages, shunts, wards, dclines, 1-2 slacks, out-of-service parts, custom indices, sn_mva 0.5-1000) plus "
         "controllable flags (explicit True/False or absent), p/q limits, ext_grid limits and controllable flag, dcline limits and "
